@@ -1236,3 +1236,35 @@ func largeKeys(t *testing.T, prop string, bads []string) {
 	st.Exhaustive[prop+".large-keys"] = fmt.Sprintf("sort_by/max_by/min_by on arrays of 22, 41 and 61 elements with one invalid/erroring key at every position x 4 key orderings: %d calls", n)
 	st.mu.Unlock()
 }
+
+// TestC11Positions: exactly one element on which the right-hand side (or key, or condition)
+// fails, at every position of arrays of 1..6, 17 and 33 elements, under every construct that
+// evaluates something once per element: the error must surface wherever the element stands
+// (not only when it is the first or the last one).
+func TestC11Positions(t *testing.T) {
+	tmpls := []string{"[*].abs(@)", "[].abs(@)", "[0:].abs(@)", "[::-1].abs(@)", "[?@ == @].abs(@)", "[?abs(@) >= `0`]", "map(&abs(@), @)", "[*].[abs(@)]", "[*].{a: abs(@)}", "[*].not_null(abs(@))",
+		"sort_by(@, &abs(@))", "max_by(@, &abs(@))", "min_by(@, &abs(@))", "[*].abs(@) | [0]", "length([*].abs(@))", "[*].abs(@)[0]", "@[*].abs(@) || `1`", "[[*].abs(@), `1`]", "{a: [*].abs(@)}", "sum(@)", "avg(@)", "max(@)", "min(@)", "sort(@)",
+		"[*].[@][].abs(@)", "[*].[@, @][*].abs(@)", "[*].{k: @}.*.abs(@)", "[*].[@][?abs(@) > `0`]", "[?@ != `-5`] | [*].abs(@)", "reverse(@)[*].abs(@)", "[*].(abs(@) && `1`)", "[*].(@ | abs(@))", "map(&[abs(@)], @)", "map(&map(&abs(@), [@]), @)"}
+	n := 0
+	for _, size := range []int{1, 2, 3, 4, 5, 6, 17, 33} {
+		for p := 0; p < size; p++ {
+			if size > 6 && p != 0 && p != 1 && p != size/2 && p != size-2 && p != size-1 {
+				continue
+			}
+			elems := make([]string, size)
+			for i := range elems {
+				elems[i] = strconv.Itoa((i*7)%11 - 3)
+			}
+			elems[p] = `"x"`
+			doc := "[" + strings.Join(elems, ",") + "]"
+			for _, e := range tmpls {
+				run(t, Case{Property: "C11", Kind: "diff", Expr: e, Doc: doc, Extra: map[string]interface{}{"cell": "position"}})
+				n++
+			}
+		}
+	}
+	st := statsFor("C11")
+	st.mu.Lock()
+	st.Exhaustive["C11.positions"] = fmt.Sprintf("%d per-element constructs x arrays of 1..6, 17, 33 numbers with one string at every position (edges and middle for the large ones): %d cases, the error must surface in each", len(tmpls), n)
+	st.mu.Unlock()
+}
